@@ -231,8 +231,12 @@ def entry_values(rng, typ, n):
         if typ == "int":
             out.append(rng.choice((0, 1, -1, 7, 10, 99999, -12345, rng.randrange(-10 ** 12, 10 ** 12))))
         elif typ == "float":
+            # incl. the boundaries of repr's layout (1e-4 fixed / 1e-5 exponent; 16 digits fixed / 1e16 exponent),
+            # 17 significant digits and three-digit exponents (audit round)
             out.append(rng.choice((0.0, 1.5, -2.25, 0.1, 1e-30, 3.141592653589793, 1e16, 123456789.125, 5e-05,
-                                   rng.random(), rng.uniform(-1e6, 1e6))))
+                                   0.0001, 9999999999999998.0, 1.2345678901234568e+17, 1e22, 1e120, -2.5e-100,
+                                   rng.random(), rng.uniform(-1e6, 1e6),
+                                   rng.uniform(1, 10) * 10.0 ** rng.randrange(-140, 140))))
         else:
             out.append("".join(rng.choice(ENTRY_ALPHABET) for _ in range(rng.randrange(0, 5))))
     return out
@@ -284,7 +288,7 @@ class C15(PropertyCheck):
             "modelled exactly), offgrid (metrics not representable at the printed precision: correspondence only for "
             "the restart clause), epsilon (rate change at or next to 10**reduce_lr_log10_epsilon), wide (patience/"
             "burn-in/cool-down >= 10: two-digit columns), entries (1-3 user entries of every modelled type/format: "
-            "int '{}' '{:d}' '{:0wd}' '{!r}', float '{}' '{!r}' '{:.ke}', str '{}' '{:s}'; strings with commas, quotes, "
+            "int '{}' '{:d}' '{:0wd}' '{!r}', float '{}' '{!r}' '{:.ke}' (values incl. the boundaries of repr's fixed/exponent layout, 17 digits, three-digit exponents), str '{}' '{:s}'; strings with commas, quotes, "
             "carriage returns, line feeds; the whole file is compared byte for byte with the model's text and the "
             "entries returned after restarts with the model's character-level re-read). Validation walks: plateau/improve/noisy/const/diverge. "
             "Exhaustive blocks: every val sequence of length 4 (quick; 16 settings) / 5 (thorough; 32 settings) over "
